@@ -39,6 +39,20 @@ CLAIMS = {
              'vs the model; (b) equally seeded GridWorld pairs, one interleaved with a third environment and disturbed global generators, opposite debug flags; '
              '(c) scripted episodes in worker processes under several PYTHONHASHSEED x debug on/off: byte-identical transcripts.',
         design='8/C02', note=TB + ' Construction (factory_env_from_data samples one state and observation with the library generator to size the spaces) precedes seeding and is outside the claim. The cross-process clause is runtime correspondence, partial by nature (sampled hash seeds).'),
+    'C03': dict(
+        level='other',
+        technique='Coq frame theorem for copy-then-mutate over an abstract heap (+ == iff equal hash keys) ; runtime object-graph monitors on the real code (structural snapshots, id-graph disjointness, after-the-fact mutation, fresh-equal-state and stateless-model comparison after arbitrary histories)',
+        text='Mutation, aliasing and caches are facts about the CPython object graph; a Gallina value has neither, so the unbounded claim about python objects is NOT provable '
+             'with this technique and is not claimed as proved (level: other).  Proved (Props/C03.v): the architecture argument the code relies on -- if the copy lives in fresh '
+             'locations and the mutator writes only into what it was given or freshly allocates, and stores only pointers into that region, then every pre-existing location is '
+             'unchanged, everything reachable from the input is still reachable unchanged, and the result shares no location with anything that existed before; and == iff '
+             'equal hash keys.  The model is stateless, so history-independence of the MODEL is definitional; what ties it to the code are the monitors: on histories over the 21 '
+             'shipped environments and dense door/key/box worlds (hashing, calls on other environments, in-place scrambling of copies interleaved with functional_observation / '
+             'functional_step / reward / termination on one evolving state): arguments structurally unchanged (deep snapshot incl. box contents), no mutable object id shared '
+             'between state and next state, no container shared between state and observation, mutating input / result / observation afterwards leaves the others unchanged, '
+             'reward and termination answer alike on equal arguments, a state with a history == and hashes like a freshly built equal state, copies equal and hash like '
+             'their original, and every step / observation agrees with the stateless model on the state\'s value.',
+        design='8/C03', note=TB + ' An observation is allowed to show the state\'s own grid objects (C05 states it does); only containers must not be shared.'),
     'C04': dict(
         level='proof',
         technique='Coq proof (machine invariant "the memoised observation belongs to the current state" over all operation sequences and outcomes; refinement of the stateful trajectory to functional threading) + operation-sequence differential check',
@@ -245,8 +259,7 @@ def main():
             'level_note': c['note'],
             'technique': c['technique'],
         })
-    na = [{'property_id': pid, 'reason': 'check under construction in this session (theorems and suite not yet registered); not claimed yet'}
-          for pid in ALL if pid not in CLAIMS]
+    na = [{'property_id': pid, 'reason': 'not claimed'} for pid in ALL if pid not in CLAIMS]
     man = {
         'version': 1,
         'setup_cmd': './check --setup',
